@@ -400,35 +400,94 @@ def r3(ctx):
         lf = linear(ie, datom)
         rule.check(lf == ({"d": 1}, -1), "nodes_by_distances indexes buckets[d - 1]", "nodes_by_distances|index",
                    "nodes_by_distances indexes buckets[%s]" % fmt_short(ie), loc=nd.loc(t.line))
-        src = [x for x in walk(ie) if x[0] == "call" and short(x[1]).endswith("Iterator::filter_map")]
-        rule.check(bool(src), "the distances iterated come from the filter_map", "nodes_by_distances|source",
+        src = [x for x in walk(ie) if x[0] == "call" and re.search(r"Iterator::(filter_map|filter)$", short(x[1]))]
+        rule.check(bool(src), "the distances iterated come out of the range filter", "nodes_by_distances|source",
                    "nodes_by_distances indexes with unfiltered distances", loc=nd.loc(t.line))
-    fc = facts.one(r"crate::kbucket::KBucketsTable::<TNodeId, TVal>::nodes_by_distances::\{closure#0\}")
-    rule.analysed(fc)
-    p = Prov(fc, facts)
-    g = Guards(fc, p, facts)
-    somes = [blk for lhs, kind, payload, blk, _l in p.defs.get(0, ()) if kind == "rv" and payload.k == "agg" and payload.j.get("variant") == "Some"]
-    lo_edges, hi_edges = [], []
+    # the filter: whatever its form (filter_map with comparisons, filter with a range), a distance is admitted only if 1 <= d <= NUM_BUCKETS
+    pnd = Prov(nd, facts)
+    clos = []
+    for bi, t in nd.calls():
+        if callee_matches(t, r"Iterator::filter_map$", r"Iterator::filter$") and len(t.args) > 1:
+            ce_ = pnd.operand(t.args[1])
+            if ce_[0] == "agg" and ":" in ce_[1] and "log2_distances" in fmt_short(pnd.operand(t.args[0])):
+                clos.append((short(t.callee() or "").split("::")[-1], facts.bodies.get(ce_[1].split(":", 1)[1])))
+    clos = [(k, c) for k, c in clos if c is not None]
+    if not clos:
+        raise AnchorError("nodes_by_distances: the distance filter closure was not found")
+    ok_all = True
+    for kind, fc in clos:
+        rule.analysed(fc)
+        p = Prov(fc, facts)
+        g = Guards(fc, p, facts)
+        if kind == "filter_map":
+            yes = [blk for lhs, k_, payload, blk, _l in p.defs.get(0, ()) if k_ == "rv" and payload.k == "agg" and payload.j.get("variant") == "Some"]
+        else:
+            yes = [blk for lhs, k_, payload, blk, _l in p.defs.get(0, ()) if not (k_ == "rv" and payload.k == "use" and payload.ops[0].const_int() == 0)]
+        lo_edges, hi_edges = [], []
 
-    def darg(x):
-        return "d" if x[0] == "param" and x[1] == 2 else None
-    for bi, t, ce in g.switches():
-        nc = normalised_cmp(ce, darg)
-        if not nc or set(nc[0]) != {"d"} or nc[2] in ("==", "!="):
+        def darg(x):
+            return "d" if x[0] == "param" and x[1] == 2 else None
+        for bi, t, ce in g.switches():
+            nc = normalised_cmp(ce, darg)
+            if not nc or set(nc[0]) != {"d"} or nc[2] in ("==", "!="):
+                continue
+            ivs = cmp_intervals(nc[0]["d"], nc[1], nc[2])
+            f, tr = g.bool_edges(bi)
+            for (lo, hi), edge in ((ivs[0], tr), (ivs[1], f)):
+                if lo is not None and lo >= 1:
+                    lo_edges.append((bi, edge))
+                if hi is not None and hi <= nb:
+                    hi_edges.append((bi, edge))
+        ok = bool(yes) and bool(lo_edges) and bool(hi_edges) and \
+            not any(s_ in fc.reachable(0, removed_edges=lo_edges) for s_ in yes) and not any(s_ in fc.reachable(0, removed_edges=hi_edges) for s_ in yes)
+        if not ok:
+            # `(1..=NUM_BUCKETS).contains(d)` as the whole predicate
+            rv = p.local(0)
+            alts = rv[1] if rv[0] == "phi" else (rv,)
+            alts = [a for a in alts if const_int_of(a) != 0]
+            def is_range_test(a):
+                if not (a[0] == "call" and re.search(r"RangeInclusive(<.*>)?::contains$|ops::RangeInclusive::contains$", short(a[1])) and len(a[2]) == 2):
+                    return False
+                rng = [x for x in walk(a[2][0]) if x[0] == "call" and short(x[1]).endswith("RangeInclusive::new")]
+                if not rng:
+                    return False
+                lo_, hi_ = const_int_of(rng[0][2][0]), const_int_of(rng[0][2][1])
+                if hi_ is None:
+                    lfh = linear(rng[0][2][1])
+                    hi_ = lfh[1] if lfh is not None and not lfh[0] else None
+                    if hi_ is None and "NUM_BUCKETS" in fmt(rng[0][2][1]):
+                        hi_ = nb
+                return lo_ is not None and lo_ >= 1 and hi_ is not None and hi_ <= nb and any(x[0] == "param" and x[1] == 2 for x in walk(a[2][1]))
+            ok = bool(alts) and all(is_range_test(a) for a in alts)
+        ok_all = ok_all and ok
+    rule.check(ok_all, "distances admitted satisfy 1 <= d <= NUM_BUCKETS (so d - 1 indexes a bucket)", "nodes_by_distances|filter",
+               "the distance filter of nodes_by_distances admits a distance outside 1..NUM_BUCKETS", loc=nd.loc(nd.line))
+    # the cap: the only early exit of the collecting loop compares the length of the vector being returned with max_nodes
+    p = pnd
+    g = Guards(nd, p, facts)
+    ret_vecs = set()
+    for blk in nd.blocks:
+        for s_ in blk.stmts:
+            if s_.k == "a" and s_.lhs.is_local() and s_.lhs.local == 0 and s_.rv.k == "use" and s_.rv.ops[0].place is not None and blk.idx in nd.live_blocks():
+                ret_vecs.add(s_.rv.ops[0].place.local)
+    heads = __import__("c13").loop_heads(nd)
+    mx = ("param", 3, nd.local_name(3) or "max_nodes")
+    for bi, t, e in g.switches():
+        c = comparison(e)
+        if not c or c[0] not in (">=", ">", "<", "<=") or not any(x == mx for x in (c[1], c[2])):
             continue
-        ivs = cmp_intervals(nc[0]["d"], nc[1], nc[2])
+        other = c[2] if c[1] == mx else c[1]
         f, tr = g.bool_edges(bi)
-        for (lo, hi), edge in ((ivs[0], tr), (ivs[1], f)):
-            if lo is not None and lo >= 1:
-                lo_edges.append((bi, edge))
-            if hi is not None and hi <= nb:
-                hi_edges.append((bi, edge))
-    ok = bool(somes) and bool(lo_edges) and bool(hi_edges)
-    if ok:
-        ok = not any(s in fc.reachable(0, removed_edges=lo_edges) for s in somes) and \
-            not any(s in fc.reachable(0, removed_edges=hi_edges) for s in somes)
-    rule.check(ok, "distances admitted satisfy 1 <= d <= NUM_BUCKETS (so d - 1 indexes a bucket)", "nodes_by_distances|filter",
-               "the distance filter of nodes_by_distances admits a distance outside 1..NUM_BUCKETS", loc=fc.loc(fc.line))
+        reach_edge = tr if ((c[0] in (">=", ">")) == (c[2] == mx)) else f
+        # does this edge leave the function without going round a loop again?
+        rr = nd.reachable(reach_edge, removed_blocks=list(heads))
+        if not any(x in rr for x in nd.return_blocks()):
+            continue
+        # (pushes are in-place, so the vector's provenance is its creation site: the same `Vec::new()` call as the returned local's)
+        is_len = other[0] == "call" and short(other[1]).endswith("Vec::len") and any(roots(other[2][0]) == roots(p.local(l)) for l in ret_vecs)
+        rule.check(is_len, "the early exit tests the length of the returned vector against max_nodes", "nodes_by_distances|cap",
+                   "nodes_by_distances returns early when %s reaches max_nodes, which is not the number of nodes collected: the answer can be cut short (or grow past the cap)"
+                   % fmt_short(other), loc=nd.loc(nd.blocks[bi].term.line))
     return rule
 
 
